@@ -92,11 +92,13 @@ pub fn generate(rng: &mut Rng, property: &str) -> BScn {
     } else {
         None
     };
+    let initial_key_for_extra = rng.below(n_keys as u64) as Key;
+    let initial_key_tl = keys[initial_key_for_extra as usize];
     let cfg = Cfg {
         grid: knobs.grid,
         selector,
         keys,
-        initial_key: rng.below(n_keys as u64) as Key,
+        initial_key: initial_key_for_extra,
         chain,
         initial_tl: if rng.chance(0.85) {
             Some(rng.usize_below(n_tls))
@@ -106,6 +108,23 @@ pub fn generate(rng: &mut Rng, property: &str) -> BScn {
         initial_start_with: rng.chance(0.3),
         start_disabled: rng.chance(0.1),
         second: second.clone(),
+        extra_entity: if rng.chance(if property == "C19" { 0.35 } else { 0.15 }) {
+            // often the same timeline as the main entity starts with, so that both end together
+            let same = if selector {
+                initial_key_tl
+            } else {
+                None
+            };
+            Some((
+                match same {
+                    Some(i) if rng.chance(0.6) => i,
+                    _ => rng.usize_below(n_tls),
+                },
+                rng.chance(0.5),
+            ))
+        } else {
+            None
+        },
         order: Order {
             other_plugin_first: rng.chance(0.5),
             register_before_plugin: rng.chance(0.3),
@@ -342,6 +361,7 @@ pub fn shrink_candidates(s: &BScn) -> Vec<BScn> {
             c.second = None;
             c.order.sequence.retain(|s| *s != "animate_other");
         });
+        push(&|c| c.extra_entity = None);
         push(&|c| c.chain = None);
         push(&|c| {
             if let Some(ch) = c.chain.as_mut() {
@@ -415,6 +435,7 @@ pub fn shrink_candidates(s: &BScn) -> Vec<BScn> {
 pub fn size(s: &BScn) -> usize {
     let mut n = s.frames.len() * 2 + s.frames.iter().map(|f| f.ops.len() * 2).sum::<usize>();
     n += s.cfg.second.is_some() as usize * 3;
+    n += s.cfg.extra_entity.is_some() as usize * 3;
     n += s.cfg.chain.as_ref().map(|c| 1 + c.len()).unwrap_or(0);
     n += s.cfg.start_disabled as usize + s.cfg.initial_start_with as usize;
     n += (s.cfg.order.sequence != legal_sequences(s.cfg.selector, s.cfg.second.is_some())[0]) as usize
